@@ -33,7 +33,15 @@ let value_token_r (r : reg option) (v : rvalue) : string =
     (* the exact rational, and — when the register is known — the float64 the code must return
        (Float.number_value_bits, Flocq binary64), as 16 hex digits *)
     let bits = (match r with
-        | Some r -> "#" ^ hex64_of_z (number_value_bits r raw)
+        | Some r ->
+          (* ... and what %f prints for it: the exact binary value rounded half-even to six decimals *)
+          let fixed = (match number_value_fixed6 r raw with
+              | Some (neg, q) ->
+                let million = z_of_int 1000000 in
+                let frac = string_of_z (Z.modulo q million) in
+                (if neg then "-" else "") ^ string_of_z (Z.div q million) ^ "." ^ String.make (6 - String.length frac) '0' ^ frac
+              | None -> "nonfinite") in
+          "#" ^ hex64_of_z (number_value_bits r raw) ^ "%" ^ fixed
         | None -> "") in
     Printf.sprintf "q%s/%s%s" (string_of_z q.qnum) (string_of_z (Zpos q.qden)) bits
   | RVText t -> "t" ^ hex_of_bytes t
@@ -47,7 +55,10 @@ let token_eq (impl : string) (model : string) : bool =
   if String.length model > 0 && model.[0] = 'q' && String.length impl > 0 && impl.[0] = 'q' then begin
     let body = String.sub model 1 (String.length model - 1) in
     let body, bits = (match String.index_opt body '#' with
-        | Some i -> String.sub body 0 i, Some (String.sub body (i + 1) (String.length body - i - 1))
+        | Some i ->
+          let b = String.sub body (i + 1) (String.length body - i - 1) in
+          let b = (match String.index_opt b '%' with Some j -> String.sub b 0 j | None -> b) in
+          String.sub body 0 i, Some b
         | None -> body, None) in
     let implf = (try Some (float_of_string (String.sub impl 1 (String.length impl - 1))) with _ -> None) in
     match String.split_on_char '/' body, implf, bits with
